@@ -561,8 +561,37 @@ def index(it, s, idx):
     if isinstance(s, (SStr, str)):
         return mk_str(z3.Unit(t[i]))
     if isinstance(s, SSeq):
-        return unbox_elem(it, s.elem, z3.simplify(t[i]))
+        v = unbox_elem(it, s.elem, z3.simplify(t[i]))
+        if s.mutable and not it.ctx.pure:
+            v = attach_view(s, i, v)
+        return v
     raise Unsupported("index")
+
+
+def attach_view(seq, i, v):
+    """make in-place mutations of a mutable element of a symbolic list write through to the list"""
+    from .values import ViewList, set_term
+
+    if isinstance(v, list):
+        v = ViewList(v)
+    elif not (isinstance(v, (SBytes, SSeq)) and v.mutable):
+        return v
+    ver = seq.version
+
+    def wb():
+        if seq.version != ver:
+            raise Unsupported("write through a stale view of a symbolic list element")
+        n = z3.Length(seq.term)
+        set_term(seq, z3.Concat(z3.Extract(seq.term, z3.IntVal(0), i), z3.Unit(seq.elem.box(v)), z3.Extract(seq.term, i + 1, n - i - 1)))
+
+    if isinstance(v, ViewList):
+        v.wb = wb
+        for x in v:
+            if isinstance(x, (SBytes, SSeq)) and x.mutable:
+                x.wb = wb
+    else:
+        v.wb = wb
+    return v
 
 
 def unbox_elem(it, sort, term):
